@@ -677,8 +677,6 @@ class PLSSDesc:
         if clean_qq is None:
             clean_qq = self.clean_qq
 
-        # Config object for passing down to Tract objects.
-        handed_down_config = self.config.decompile_to_text()
 
         if segment is None:
             segment = self.segment
@@ -697,6 +695,17 @@ class PLSSDesc:
             qq_depth_min = self.qq_depth_min
         if qq_depth_max is None:
             qq_depth_max = self.qq_depth_max
+
+        # Config object for passing down to Tract objects. The settings
+        # locked down above (keyword, else config) override whatever the
+        # config itself says about them.
+        handed_down_config = Config(self.config)
+        handed_down_config.clean_qq = clean_qq
+        handed_down_config.break_halves = break_halves
+        handed_down_config.qq_depth = qq_depth
+        handed_down_config.qq_depth_min = qq_depth_min
+        handed_down_config.qq_depth_max = qq_depth_max
+        handed_down_config = handed_down_config.decompile_to_text()
 
         # Parameters for `PLSSParser.parse()`.
         config_params = {
